@@ -200,9 +200,17 @@ def _scratch_path():
     if _PATH is None:
         from mc import seams
         os.makedirs(seams.SCRATCH, exist_ok=True)
-        _PATH = os.path.join(seams.SCRATCH, 'c09-%d.las' % os.getpid())
+        # the path a caller may well hold: through a symbolic link to a directory and up again ('current/../well.las'), which the
+        # operating system resolves from the link's target - the text of the path, tidied, names another place
         import atexit
-        atexit.register(lambda: os.path.exists(_PATH) and os.remove(_PATH))
+        import shutil
+        base = os.path.join(seams.SCRATCH, 'c09-%d' % os.getpid())
+        shutil.rmtree(base, ignore_errors=True)
+        os.makedirs(os.path.join(base, 'store', 'run_1'))
+        os.makedirs(os.path.join(base, 'work'))
+        os.symlink(os.path.join(base, 'store', 'run_1'), os.path.join(base, 'work', 'current'))
+        _PATH = os.path.join(base, 'work', 'current', '..', 'well.las')
+        atexit.register(lambda: shutil.rmtree(base, ignore_errors=True))
     return _PATH
 
 
@@ -616,7 +624,10 @@ def run_shard(shard, tier):
                 nl = ['NULL', '', L.NULL_TEXTS[null][0], 'NULL VALUE']
                 well = head + (run + [nl] if where in ('before_null', 'both') else [nl] + (run if where == 'after_null' else []))
                 params = {'params_first': bht + PARAM_POOL[:2], 'params_last': PARAM_POOL[:1] + bht, 'both': [bht[0], PARAM_POOL[0], bht[1], PARAM_POOL[1]]}.get(where, PARAM_POOL[:1])
-                for cells in (['1.5', 'abc', L.CELL_NULL], ['abc', '2.5', '-999.25'], ['%s', '100%', '1.5']):
+                # the last triple: readings next to the file's NULL that are not the NULL (they are data, and not masked)
+                near = {'-9999': ['-9998.95', '-9999.05', '-9999.0000001'], '-999.25': ['-999.2500001', '-999.255', '-999.2401'],
+                        '0': ['1e-9', '-4.9e-9', '2.2250738585072014e-308']}[null]
+                for cells in (['1.5', 'abc', L.CELL_NULL], ['abc', '2.5', '-999.25'], ['%s', '100%', '1.5'], near):
                     content = L.make_content(null=null, well_head=well, well_extra=WELL_POOL[:1], curves=CURVE_POOL[:2], params=params,
                                              frames=[[x, c] for x, c in zip(('100.0', '100.5', '101.0'), cells)], vdesc=VDESC['2.0'], dups=True)
                     r.run(content, data_layouts(content, tier, False))
